@@ -39,7 +39,7 @@ REAL_STUB = {
 EXPECTED_PROBES = ["probe_eviction", "probe_reopen", "probe_get_after_evict", "probe_oversize_rejected", "probe_missing_get",
                    "probe_overwrite", "probe_unload", "probe_table_merge_conflict", "probe_table_with_holes_read",
                    "probe_table_stored_with_pending_insert", "probe_table_batch_unordered_or_repeating", "probe_get_raised_after_read_error",
-                   "probe_missing_get_on_the_path_of_a_set_key", "probe_returned_table_mutated"]
+                   "probe_missing_get_on_the_path_of_a_set_key", "probe_returned_table_mutated", "probe_epilogue_pressure_set"]
 WALL_CAP = {"quick": 300, "thorough": 3600}
 
 _fc = _kvs = _dfc = None
@@ -65,7 +65,7 @@ KEYPOOL = ["a", "b", "c", "d/e", "d/f", "g/h/i", "g/h/j", "k k", "l.m", "café",
 ROOT = "/kv"
 
 
-def _check_cache(cache, fs, violations, when, model_keys, decode, failed_ok=None):
+def _check_cache(cache, fs, violations, when, model_keys, decode, failed_ok=None, diag=None):
     total = 0
     for name, info in list(cache.file_futures.items()):
         if info[0] and name == failed_ok and info[-1].done() and isinstance(info[-1].exception(), OSError):
@@ -92,15 +92,18 @@ def _check_cache(cache, fs, violations, when, model_keys, decode, failed_ok=None
         violations.append({"sig": "C16:inv:accounting-sum", "msg": f"{when}: usage={cache.current_memory_usage} sum={total}"})
     if not (0 <= cache.current_memory_usage <= cache.max_memory):
         violations.append({"sig": "C16:inv:accounting-range", "msg": f"{when}: usage={cache.current_memory_usage} max={cache.max_memory}"})
-    heap_names = [fn for _, fn in cache.file_access_times]
-    for fn in heap_names:
-        if fn not in cache.file_futures:
-            violations.append({"sig": "C16:inv:dangling-lru-item", "msg": f"{when}: {fn}"})
-    for fn, info in cache.file_futures.items():
-        if fn == failed_ok and info[0]:
-            continue
-        if heap_names.count(fn) != 1:
-            violations.append({"sig": "C16:inv:lru-items-per-entry", "msg": f"{when}: {fn} has {heap_names.count(fn)} LRU items"})
+    # the shape of the LRU structure is NOT judged (the property speaks of the accounting and of what gets read back; a cache
+    # that deletes LRU records lazily would hold it): counted as diagnostics only, the behavioural consequence of a record the
+    # eviction pass cannot cope with is what the epilogue of every history provokes
+    if diag is not None:
+        try:
+            heap_names = [fn for _, fn in cache.file_access_times]
+            if any(fn not in cache.file_futures for fn in heap_names):
+                diag["diag_lru_record_without_entry"] += 1
+            if any(heap_names.count(fn) != 1 for fn, info in cache.file_futures.items() if not (fn == failed_ok and info[0])):
+                diag["diag_entry_without_exactly_one_lru_record"] += 1
+        except Exception:
+            pass
     files = {p[len(ROOT) + 1:] for p in fs.files if p.startswith(ROOT + "/")}
     if files != set(model_keys):
         violations.append({"sig": "C16:inv:directory-differs-from-model",
@@ -293,9 +296,53 @@ def scenario(ch, cfg):
                         stats["probe_eviction"] += 1
             w.note(log[-1])
             _check_cache(st.cache, fs, violations, f"after op {i} {log[-1]}", model.keys(), decode,
-                         failed_ok=iof["key"] if iof is not None else None)
+                         failed_ok=iof["key"] if iof is not None else None, diag=stats)
             if len(violations) > 8:
                 return
+        if violations:
+            return
+        # ---- epilogue: eviction pressure.  What the property promises about the cache's bookkeeping is behavioural: whatever the
+        # history left in the LRU structures, later sets of values that fit must be accepted, must push older entries out, and
+        # every key must still read its latest value.  (A record the eviction pass cannot resolve, or an entry it can never
+        # evict, shows here as a failing set or a wrong read - the internal shape of the LRU structure itself is not judged.)
+        st = state["store"]
+        fill = None
+        for lit_n in range(max(maxsz - 12, 1), 0, -1):
+            if len(serialize_obj("x" * lit_n)) <= maxsz:
+                fill = lit_n
+                break
+        pkeys = [pk for pk in ("zp0", "zp1", "zp2") if pk not in model and pk not in keys]
+        for j, pk in enumerate(pkeys):
+            lit = ('"' + "xyz"[j] * fill + '"') if fill and limit < (1 << 20) else str(900 + j)
+            klong(f't::"{pk}",,{lit}')
+            expect = canon(klong("t@1"))
+            try:
+                klong("kvs,t")
+            except BaseException as e:   # noqa
+                if isinstance(e, SystemExit):
+                    raise
+                viol(f"C16:set-raises:{type(e).__name__}", f"epilogue set({pk!r}, {len(lit)} chars, fits the limit {limit}) raised {type(e).__name__}: {str(e)[:100]} after {log[-3:]}")
+                break
+            model[pk] = expect
+            stats["probe_epilogue_pressure_set"] += 1
+            _check_cache(st.cache, fs, violations, f"epilogue after set({pk})", model.keys(), decode,
+                         failed_ok=iof["key"] if iof is not None else None, diag=stats)
+        for key in sorted(model):
+            if violations:
+                break
+            try:
+                res = canon(klong(f'kvs?"{key}"'))
+            except BaseException as e:   # noqa
+                if isinstance(e, SystemExit):
+                    raise
+                res = ("raised", type(e).__name__)
+            if res != model[key]:
+                if iof is not None and iof["key"] == key and res == ("raised", "OSError"):
+                    continue
+                what = res[1] if res[0] == "raised" else "wrong-value"
+                viol(f"C16:get:{what}", f"epilogue: key {key!r} reads {str(res)[:120]}; latest set stored {str(model[key])[:120]}")
+            _check_cache(st.cache, fs, violations, f"epilogue after get({key})", model.keys(), decode,
+                         failed_ok=iof["key"] if iof is not None else None, diag=stats)
 
     a = w.spawn("caller", run_ops)
     reason = w.run()
@@ -554,9 +601,58 @@ def scenario_tables(ch, cfg):
                 stats["probe_eviction"] += 1
                 state["touched"] = True
             w.note(log[-1])
-            _check_cache(st.cache, fs, violations, f"after op {i} {log[-1]}", model.keys(), decode)
+            _check_cache(st.cache, fs, violations, f"after op {i} {log[-1]}", model.keys(), decode, diag=stats)
             if len(violations) > 8:
                 return
+        if violations:
+            return
+        # ---- epilogue: eviction pressure.  What the property promises about the cache's bookkeeping is behavioural: whatever the
+        # history left in the LRU structures, later sets of values that fit must be accepted, must push older entries out, and
+        # every key must still read its latest value.  (A record the eviction pass cannot resolve, or an entry it can never
+        # evict, shows here as a failing set or a wrong read - the internal shape of the LRU structure itself is not judged.)
+        st = state["store"]
+        pkeys = [pk for pk in ("zp0", "zp1", "zp2") if pk not in model and pk not in keys]
+        for pk in pkeys:
+            rows = mk_table()
+            try:
+                klong(f'tbs,"{pk}",,T')
+            except BaseException as e:   # noqa
+                if isinstance(e, SystemExit):
+                    raise
+                violations.append({"sig": f"C16:table-set-raises:{type(e).__name__}", "msg": f"epilogue set({pk}): {str(e)[:120]} after {log[-3:]}"})
+                break
+            cur = model.setdefault(pk, {})
+            seen = state["columns"].setdefault(pk, [])
+            for ix, row in rows:
+                for c in row:
+                    if c not in seen:
+                        seen.append(c)
+                if ix in cur:
+                    state.setdefault("alts", {}).setdefault((pk, ix), []).append(row)
+                else:
+                    cur[ix] = row
+            log.append(f"epilogue set({pk})")
+            stats["probe_epilogue_pressure_set"] += 1
+            _check_cache(st.cache, fs, violations, f"epilogue after set({pk})", model.keys(), decode, diag=stats)
+        for key in sorted(model):
+            if violations:
+                break
+            try:
+                got = klong(f'tbs?"{key}"')
+                res = table_rows(got) if isinstance(got, Table) else canon(got)
+            except BaseException as e:   # noqa
+                if isinstance(e, SystemExit):
+                    raise
+                res = ("raised", type(e).__name__)
+            want = with_holes(key)
+            if res != want and isinstance(res, dict) and set(res) == set(want):
+                cols_ = state["columns"].get(key, [])
+                alts = state.get("alts", {})
+                if all(res[ix] == want[ix] or any(res[ix] == {c: r.get(c) for c in cols_} for r in alts.get((key, ix), [])) for ix in want):
+                    res = want
+            if res != want:
+                violations.append({"sig": "C16:table-get:wrong", "msg": f"epilogue: table {key!r} reads {str(res)[:300]}; model {str(want)[:300]}"})
+            _check_cache(st.cache, fs, violations, f"epilogue after get({key})", model.keys(), decode, diag=stats)
 
     a = w.spawn("caller", run_ops)
     reason = w.run()
